@@ -341,10 +341,11 @@ def walk_grid(r, wmax=14, hmax=8):
     return "\n".join("".join(row).rstrip() for row in g)
 
 
-def hatch_grid(r):
+def hatch_grid(r, diag="/"):
     """a hatched triangle: bars hanging from the top row at the columns 0, 2, 4, ..., each two rows shorter than its left
     neighbour; a '/' run from the top right down to a '+' beside the lower end of the first bar, which goes on for a few
-    more rows: grouping its cells takes one merge pass per bar"""
+    more rows: grouping its cells takes one merge pass per bar.  (diag: the character the slanted run is made of; C03
+    asks for '+', which keeps the cells 8-connected in the same way inside its own alphabet)"""
     nb = r.choice([r.randint(3, 7), r.randint(8, 14), r.randint(15, 30)])
     tail = r.randint(1, 4)
     width = 2 * nb
@@ -355,8 +356,53 @@ def hatch_grid(r):
         for y in range(width - x):
             g[y][x] = "|"
     for y in range(width):
-        g[y][width - y] = "/"
+        g[y][width - y] = diag
     g[width - 1][1] = "+"
     for y in range(width, rows):
         g[y][0] = "|"
     return "\n".join("".join(row).rstrip() for row in g)
+
+
+# ------------------------------------------------------------------------------------------
+# the shared pool (tools/mkuniverse.py): what every property's own generators produce, offered to every other property
+# whose quantifier admits it
+_UNI = None
+STABLE = None
+
+
+def universe(r=None, n=None, want=None):
+    """inputs of the frozen pool verifpy/universe.json; `want(text)` filters by the quantifier of the asking property;
+    n: how many (drawn with r), None = all"""
+    global _UNI
+    if _UNI is None:
+        import json
+        with open(os.path.join(os.path.dirname(os.path.abspath(__file__)), "universe.json"), encoding="utf-8") as f:
+            _UNI = [x["t"] for x in json.load(f)]
+    ts = [t for t in _UNI if want is None or want(t)]
+    if n is not None and r is not None and len(ts) > n:
+        ts = r.sample(ts, n)
+    return ts
+
+
+def tame(t):
+    """only characters whose display width every table agrees on and that the reference operators describe: printable
+    ASCII, the drawing glyphs, the label scripts and the wide characters the drivers use; no tabs, CR, controls,
+    zero-width or combining characters"""
+    global STABLE
+    if STABLE is None:
+        STABLE = set(FULL + WIDE + LATIN + CYRIL + "\n" + "".join(chr(c) for c in range(32, 127)))
+    return all(ch in STABLE for ch in t)
+
+
+def has_legend(t):
+    return "# Legend:" in t
+
+
+def plain_lines(t):
+    """no tab, CR or other control character (a text the row-level relations can shift, juxtapose and re-dress)"""
+    return all(ch == "\n" or ord(ch) >= 32 for ch in t) and "\x7f" not in t
+
+
+def header_at_line_start(t):
+    """every '# Legend:' in the text starts its line (a header in the middle of a line is outside the statements)"""
+    return all(ln.startswith("# Legend:") for ln in t.split("\n") if "# Legend:" in ln)
